@@ -199,5 +199,16 @@ claim(
     "pkgutil.walk_packages on generated trees is not decided.",
     TB + "; the virtual file system stands for the OS; the import-system precedence rule is written in the rule module",
 )
+claim(
+    "C13",
+    "table agreement (documentation support table vs the styles' reader tables; Sphinx prefix order), finite-domain abstract evaluation of the "
+    "signature-fallback slot selection, offset-contract checks backed by the reader summaries of the bounds analysis, typestate on the CFG "
+    "(admonition title re-assigned between flushes), append discipline of the Sphinx exception reader",
+    "Only necessary conditions of the round-trip are decided: supported sections have readers, field prefixes cannot shadow, generator/iterator/"
+    "tuple slots are selected as documented and only for several items, block readers return the last consumed line and callers skip exactly the "
+    "header, a stale admonition title cannot label later content, repeated :raises: fields are all kept, docstring types win over the "
+    "signature. The round-trip over generated documents is NOT decided by this family.",
+    TB + "; docs/reference/docstrings.md is read at run time",
+)
 for _p in [f"C{n:02d}" for n in range(1, 20) if f"C{n:02d}" not in CLAIMED]:
     NOT_YET[_p] = "check under construction in this round (static rules designed in DESIGN.md section 3; not yet registered)"
